@@ -129,6 +129,27 @@ class LoaderTap:
         M.GHEManager.__init__, M.GHEManager.find_design, M.GHEManager.prepare_results, M.GHEManager.write_output_files = self._orig
 
 
+def config_state(mgr):
+    """Everything the API configuration consists of, read back from a manager (nominal borehole height excluded: it is not an input)."""
+    p = mgr._pipe
+    sp = mgr._simulation_parameters
+    gc = dict(mgr._geometric_constraints.__dict__)
+    gc["type"] = str(gc.get("type"))
+    return {
+        "fluid": [mgr._fluid.fluid_type.name, mgr._fluid.concentration_percent, mgr._fluid.temperature],
+        "grout": [mgr._grout.k, mgr._grout.rhoCp],
+        "soil": [mgr._soil.k, mgr._soil.rhoCp, mgr._soil.ugt],
+        "pipe_type": mgr.pipe_type.name,
+        "pipe": [repr(p.pos), repr(p.r_in), repr(p.r_out), p.s, p.roughness, repr(p.k), p.rhoCp, p.n_pipes],
+        "borehole": [mgr._borehole.D, mgr._borehole.r_b],
+        "sim": [sp.start_month, sp.end_month, sp.max_EFT_allowable, sp.min_EFT_allowable, sp.max_height, sp.min_height, sp.max_boreholes, bool(sp.continue_if_design_unmet)],
+        "loads_len": len(mgr._ground_loads),
+        "loads_equal_marker": float(sum(mgr._ground_loads)),
+        "geometry": {k: (repr(v) if isinstance(v, (list, tuple)) else v) for k, v in gc.items()},
+        "design": [type(mgr._design).__name__, mgr._design.V_flow, mgr._design.flow_type.name],
+    }
+
+
 def design_digest(mgr):
     s = mgr._search
     coords = np.asarray(s.selected_coordinates, dtype=float)
@@ -218,6 +239,17 @@ def run_case(g, idx, res, workdir, with_design):
             bad("loader-did-not-build-one-manager", f"return code {rc}, {len(insts)} managers")
             return out, case
         m2 = insts[0]
+        st1, st2 = config_state(m1), config_state(m2)
+        res["configs_compared"] = res.get("configs_compared", 0) + 1
+        # rotations are written in degrees and held in radians: deg -> rad -> deg -> rad may move the last bit (one ulp), which is
+        # rounding of the unit conversion, not a different configuration
+        for st in (st1, st2):
+            for kk in ("min_rotation", "max_rotation"):
+                if isinstance(st["geometry"].get(kk), float):
+                    st["geometry"][kk] = float(f"{st['geometry'][kk]:.13e}")
+        if st1 != st2:
+            diffs = [f"{k}: {str(st1[k])[:60]} -> {str(st2[k])[:60]}" for k in st1 if st1[k] != st2[k]]
+            bad("loaded-configuration-differs-from-api-configuration:" + [k for k in st1 if st1[k] != st2[k]][0], f"{method}/{pipe}: " + "; ".join(diffs[:3]))
         m2.write_input_file(f2)
         text2 = f2.read_text()
         res["round_trips"] += 1
@@ -295,7 +327,8 @@ def check(tier, seed):
     rep.rule = (
         "case = configuration accepted by the API: 6 design methods (RowWise with and without perimeter ratio) x 4 pipe types in rotation, five "
         "fluids with concentrations, optional max_boreholes / continue flag, non-round rotations, tiny and large values, generated 8760-h loads; "
-        "write -> independent per-section schema validation + tool validator -> CLI loader (instance captured) -> write again -> byte comparison; "
+        "write -> independent per-section schema validation + tool validator -> CLI loader (instance captured) -> state of the loaded manager compared "
+        "with the API-built one (all media, pipe, borehole, simulation parameters incl. cap and continue flag, geometry, design) -> write again -> byte comparison; "
         "the first case(s) of every shard also run both designs and compare digests. non-trivial = every case; distinct by inputs."
     )
     hits = {}
@@ -307,6 +340,7 @@ def check(tier, seed):
         rep.evaluations += r["cases"]
         for k2 in ("validated", "round_trips", "design_pairs"):
             rep.count(k2, r[k2])
+        rep.count("api_vs_loaded_configurations_compared", r.get("configs_compared", 0))
         for k2, v2 in r["hits"].items():
             hits[k2] = hits.get(k2, 0) + v2
         for k2, v2 in r["methods"].items():
